@@ -911,7 +911,9 @@ class Parser:
           self.err("a select can only follow an identifier or a concatenation, not a "
                    "parenthesised expression, cast or literal")
         if op == "'":
-          self.unsup("cast with a non-literal size or type")
+          if self.kind[p + 1] == OP and self.val[p + 1] == "(":
+            self.unsup("cast with a non-literal size or type")
+          self.err("unexpected cast tick")
         return lhs
       if prec < minprec:
         return lhs
